@@ -345,6 +345,7 @@ func (rm *ResponseManager) taskDataForKey(requestID graphsync.RequestID) queryex
 	}
 	response.state = graphsync.Running
 	return queryexecutor.ResponseTask{
+		PanicCallback:  rm.panicCallback,
 		Ctx:            response.ctx,
 		Span:           response.span,
 		Empty:          false,
